@@ -12,5 +12,8 @@ CONSTANTS
   M_ResetBegin = TRUE
   M_ResetBuf = TRUE
   M_SkipParent = TRUE
-INVARIANTS TypeOK FramingOK BodyIs SplitBodiesInOrder SplitCoversModuloD14 AckOnlyCovered NoDuplicateAccept Export
+  M_ReencodeAfterGiveUp = TRUE
+  Retry = 1
+  DeadQueueModes = {TRUE, FALSE}
+INVARIANTS TypeOK FramingOK BodyIs SplitBodiesInOrder SplitCoversModuloD14 AckOnlyCovered NoDuplicateAccept GiveUpOnlyAfterRetries Export
 CHECK_DEADLOCK FALSE
